@@ -23,12 +23,18 @@ type verifBackend struct {
 	closed  int
 	deleted int
 	rc      chan []byte
+	// record size limits given to diskqueue.New (0 = unchecked): like the real queue, Put refuses
+	// a record outside [minSize, maxSize] ("invalid message write size")
+	minSize, maxSize int32
 }
 
 func (b *verifBackend) Put(p []byte) error {
 	b.puts++
 	if b.failPut {
 		return errors.New("verif: backend put failed")
+	}
+	if b.maxSize > 0 && (int32(len(p)) < b.minSize || int32(len(p)) > b.maxSize) {
+		return errors.New("verif: invalid message write size")
 	}
 	cp := make([]byte, len(p))
 	copy(cp, p)
@@ -48,7 +54,7 @@ func (b *verifBackend) Empty() error  { b.emptied++; b.items = nil; return nil }
 
 func verifDiskqueueNew(name string, dataPath string, maxBytesPerFile int64, minMsgSize int32, maxMsgSize int32,
 	syncEvery int64, syncTimeout time.Duration, logf diskqueue.AppLogFunc) diskqueue.Interface {
-	return &verifBackend{}
+	return &verifBackend{minSize: minMsgSize, maxSize: maxMsgSize}
 }
 
 func verifNotifyNop(n *NSQD, v interface{}, persist bool) {}
